@@ -59,6 +59,15 @@ def gen_pipeline_screen(w, *, n_samples=None, n_names=None, n_plates=None, rows_
     return dict(control=control, arity=2, rows=rows)
 
 
+def ensure_noncontrol(spec):
+    """A pipeline screen must carry at least one non-control treatment (embedding tables would be
+    empty otherwise, and indexing the control sentinel into an empty table is undefined)."""
+    ctl = spec["control"]
+    if not any(t[0] != ctl and t[1] > 0 for r in spec["rows"] for t in r[1]):
+        spec["rows"][0][1] = [["d0", 1.0], ["d1", 1.0]][: spec["arity"]]
+    return spec
+
+
 def make_sdc_theta(rng, n_samp, n_treat, D, scale=1.0, precision=None):
     from batchie.models.sparse_combo import SparseDrugComboMCMCSample
 
